@@ -183,6 +183,18 @@ def flows_oracle(ctx):
                                   unit=uf.name, expected="x", observed=type(e).__name__, broken="round-trip oracle on flow.bijection")
                     continue
                 uf.count((name, dim, cond, direction, [fhex(v) for v in np.ravel(x)]), nontrivial=True, tag=name)
+                # the '..._and_log_det' variant returns the same point as the plain method (analytic directions only: cheap)
+                if not (name.startswith("bnaf") and ((direction == "fwd") == (type(bij).__name__ == "Invert"))):
+                    ald = bij.transform_and_log_det if direction == "fwd" else bij.inverse_and_log_det
+                    try:
+                        mid2 = np.asarray(ald(jnp.asarray(x), c)[0], dtype=float)
+                        if not np.allclose(mid2, np.asarray(mid, dtype=float), rtol=1e-12, atol=1e-12, equal_nan=True):
+                            ctx.violation(sig=f"flow:{name}:{direction}:and-log-det-point", what=f"{name} (dim {dim}, cond {cond}): {'transform' if direction == 'fwd' else 'inverse'}_and_log_det "
+                                          f"returns the point {np.ravel(mid2).tolist()} but the plain method returns {np.ravel(np.asarray(mid)).tolist()} at x={np.ravel(x).tolist()}",
+                                          case=dict(flow=name, dim=dim, cond=cond, direction=direction, x=[fhex(v) for v in np.ravel(x)]), found_input=True,
+                                          unit=uf.name, broken="and_log_det point = plain point (flows)")
+                    except NotImplementedError:
+                        pass
                 if not np.all(np.isfinite(np.asarray(mid))):
                     continue
                 err = float(np.max(np.abs(back - x)))
